@@ -372,6 +372,10 @@ def judge_components_init(j, n_components, inp, y, init, random_state,
       try:
         lda = LinearDiscriminantAnalysis(n_components=k).fit(X, y)
         ref = lda.scalings_.T[:k]
+        if ref.shape[0] < k:
+          # documented: "the rest of the components will be zero"
+          ref = np.vstack([ref, np.zeros((k - ref.shape[0], d))])
+          detail['lda_rank'] = int(lda.scalings_.shape[1])
         if ref.shape == R.shape:
           res = float(np.abs(R - ref).max() / max(np.abs(ref).max(), 1e-300))
           detail['lda_residual'] = res
